@@ -1,6 +1,7 @@
 """C05 - solve() equals the ordered sequence of single-period solves; failures contained."""
 from contracts.c05_solve import SolveContract, SolvePeriodContract
 from props.solve_bounded import SolveTScripted
+from verif.crosscheck import TARGETS as _XT, EncoderCrossCheck
 from verif.spec import PropertySpec
 
 PROPERTY = PropertySpec(
@@ -20,3 +21,5 @@ PROPERTY = PropertySpec(
     technique='contract-based deductive verification (pyvc + z3) with a ghost call log; bounded run-time conformance for the span look-up',
     design_ref='DESIGN.md section 10 / C05',
 )
+
+PROPERTY.bounded.append(EncoderCrossCheck(_XT['C05']))
